@@ -193,6 +193,10 @@ def configs_for(prop, tier):
         add(op="mtm", kindA=kind, shapeA="flat")
     for spec, kind in (("ETF", "spot"), ("ES", "margined"), ("ZN", "margined")):
         add(op="trade", kindA=kind, shapeA="held", specA=spec)
+    # a second contract of the other kind held alongside (mixed fully-paid / margined account)
+    add(op="trade", kindA="margined", shapeA="held", kindB="spot", shapeB="held")
+    add(op="trade", kindA="spot", shapeA="held", kindB="margined", shapeB="held")
+    add(op="quote", kindA="margined", shapeA="held", kindB="margined", shapeB="held")
     # the same operations directly after a quote update (no valuation in between)
     for kind in ("spot", "margined"):
         for shape in ("flat", "long", "short"):
